@@ -383,13 +383,14 @@ fn forced_case(case: u64, rng: &mut Rng, rep: &mut Report) {
         ex.step(&Op::Commit);
     }
     let second_index = rng.bool();
-    // the reader opens ~7 files per segment; park it at a random one (or right at meta.json)
-    let at_meta = rng.chance(1, 5);
+    // the reader opens ~7 files per segment; park it at a random one
+    // ... or right before it takes the meta lock, or right before it reads meta.json
+    let gate_kind = rng.below(6);
     let nth = rng.below((nseg * 7) as u64);
-    let gate = if at_meta {
-        mon.add_gate(OpPred::kind(OpKind::OpenRead).role("reader"), 0)
-    } else {
-        mon.add_gate(OpPred::kind(OpKind::OpenRead).role("reader"), nth)
+    let gate = match gate_kind {
+        4 => mon.add_gate(OpPred::kind(OpKind::LockAcquire).role("reader").path(".tantivy-meta.lock"), 0),
+        5 => mon.add_gate(OpPred::kind(OpKind::AtomicRead).role("reader").path("meta.json"), 0),
+        _ => mon.add_gate(OpPred::kind(OpKind::OpenRead).role("reader"), nth),
     };
     let index = ex.index.clone();
     let mon2 = mon.clone();
@@ -473,7 +474,7 @@ fn forced_case(case: u64, rng: &mut Rng, rep: &mut Report) {
         rep.nontrivial(format!(
             "forced:{}:{}:{}",
             if second_index { "second-index" } else { "same-index" },
-            if at_meta { "at-first-open".to_string() } else { format!("open#{}", nth.min(20)) },
+            match gate_kind { 4 => "before-meta-lock".to_string(), 5 => "before-reading-meta.json".to_string(), _ => format!("open#{}", nth.min(20)) },
             if gc_blocked > 0 { "gc-excluded" } else { "gc-ran" }
         ));
     }
